@@ -119,6 +119,15 @@ class Run:
         return os.path.relpath(path, HERE)
 
 
+def _psi4(case):
+    p = case.get('psi') if isinstance(case, dict) else None
+    if p is None:
+        return (0, 0, 0, 0)
+    if isinstance(p, int):
+        return (p,) * 4
+    return tuple(p)
+
+
 def load_known():
     p = os.path.join(HERE, 'known_findings.json')
     if not os.path.exists(p):
@@ -203,8 +212,8 @@ def check(run, cfg):
     known = [k for k in load_known() if k.get('property') == prop and not k.get('fixed')]
     # ---- known-finding regions are excluded from the precondition (DESIGN 3.8) and replayed below
     for k in known:
-        c = CONTRACTS.get(k['function'])
-        if c is not None and k.get('region'):
+        c = CONTRACTS.get(k.get('function'))
+        if c is not None and k.get('region') and k.get('kind') != 'bounded':
             c.requires.append('not (%s)' % k['region'])
     # ---- generate
     reports, obligations = [], []
@@ -224,7 +233,8 @@ def check(run, cfg):
     if not obligations:
         raise CannotBind('zero obligations generated')
     # ---- discharge
-    results = solve.discharge(obligations, timeout_ms=10000 if quick else 60000, both=not quick)
+    results = solve.discharge(obligations, timeout_ms=10000 if quick else 60000, both=not quick,
+                              max_fail=24 if quick else 200)
     # ---- consistency of the axioms (vacuity guard): `false` must not be provable
     from dvc import vacuity
     vac = vacuity.check(run, cfg, reports, vac_obs)
@@ -281,12 +291,36 @@ def check(run, cfg):
         run.errors.append('translation validation mismatch: %s' % tvres['mismatches'][:3])
     # ---- bounded stand-ins
     bounded = {}
+    bounded_known = [k for k in known if k.get('kind') == 'bounded']
+    matched_known = {}
     for name, fn in cfg.get('bounded', {}).items():
+        run.known_witness_cases = [k['witness_case'] for k in bounded_known if k.get('sweep') == name and 'witness_case' in k]
         res = fn(run)
+        if isinstance(res, dict) and prop in res and 'evaluations' not in res:
+            res = res[prop]          # sweeps shared between properties return one entry per property
         bounded[name] = res
+        nv = 0
         for v in res.pop('violations', []):
-            path = run.write_replay('bounded::' + name, dict(property=prop, obligation='bounded::' + name, **v))
-            run.violations.append(('bounded::' + name, path, True))
+            hit = None
+            for k in bounded_known:
+                try:
+                    if eval(k['match'], {'__builtins__': {}}, dict(v=v, case=v.get('case', {}), fn=v.get('function', ''),
+                                                                    what=v.get('what', ''), inp=v.get('failing_input', {}),
+                                                                    psi4=_psi4(v.get('case', {})), len=len, max=max, min=min)):
+                        hit = k
+                        break
+                except Exception:       # noqa: a malformed matcher never hides a violation
+                    hit = None
+            if hit is not None:
+                matched_known.setdefault(hit['id'], 0)
+                matched_known[hit['id']] += 1
+                continue
+            nv += 1
+            if nv <= 3:
+                path = run.write_replay('bounded::%s::%d' % (name, nv), dict(property=prop, obligation='bounded::' + name, **v))
+                run.violations.append(('bounded::' + name, path, True))
+        res['known_finding_hits'] = dict(matched_known)
+    run.matched_known = matched_known
     # ---- self-test mutations
     selftests = []
     st_fn = cfg.get('selftest')
@@ -298,7 +332,10 @@ def check(run, cfg):
     # ---- known findings: replay witnesses
     for k in known:
         from dvc import findings
-        still = findings.replay_witness(run, k)
+        if k.get('kind') == 'bounded':
+            still = run.matched_known.get(k['id'], 0) > 0
+        else:
+            still = findings.replay_witness(run, k)
         if still:
             line = 'KNOWN-FINDING: property=%s %s' % (prop, k['what'])
             print(line)
